@@ -304,7 +304,7 @@ type world struct {
 
 func caseKey(u *unitCase) string {
 	h := sha256.Sum256(u.Doc.Body)
-	return fmt.Sprintf("%s|%x|%s|%s|%v|%v|%v|%s|%d|%s|%v|%d", u.Kind, h[:8], u.Doc.CT, u.Set.name(), u.ChunkLen, u.EOFLast, u.Pattern, u.BufMode, u.FailAt, u.Stack, u.HighLevel, u.Group)
+	return fmt.Sprintf("%s|%x|%s|%s|%v|%v|%v|%s|%d|%s|%v|%d", u.Kind, h[:8], u.Doc.CT, u.Set.name(), u.ChunkLen, u.EOFLast, u.Pattern, u.BufMode, u.FailAt, u.Stack, u.HighLevel, u.Group) + u.CfgProg
 }
 
 // eval drives the real code on u, judges it and (toCoq) emits the observation for the model.
